@@ -2269,4 +2269,49 @@ example :
     exact c1
   exact ⟨e1, e2, e3, e4, e5, h1, h3, h4, h5, by decide, by decide⟩
 
+-- ================================================================ the block-validity hypotheses are necessary
+
+/-- the statement one would like: `play` followed by a `walk` keeps conservation under the hash-causality hypotheses of
+`play_PoolLive` alone — *without* the block-validity hypotheses `hparents` / `hdeps` (the block contains the pending
+transactions its transactions cite / depend on). It is FALSE in the model (refuted below): `play` accepts a block that
+confirms a pending child without its pending parent, and the next pool roll-back then "un-spends" the parent's input
+while the child's outputs stay — tokens are counted twice. -/
+def play_walk_conservation_statement : Prop :=
+  ∀ (e : Env) (s : St) (lh : Int) (b : Block) (dest : Nat), PoolLive e s →
+    b.txs.Nodup → (∀ i ∈ b.txs, (e.tx i).id = i) →
+    (∀ i ∈ b.txs, i ∉ s.pool →
+      (∀ o, lookup s.U (i, o) = none) ∧ (∀ r ∈ (e.tx i).ins, r.tx ≠ i) ∧
+      ((e.tx i).coinbase = true → (e.tx i).ins = [] ∧ feeOf (e.tx i).outs = 0) ∧
+      (∀ j ∈ s.pool, ∀ r ∈ (e.tx j).ins, r.tx ≠ i)) →
+    sumU (walk e (play e s lh b).1 lh dest false).1.U +
+      poolFees e (walk e (play e s lh b).1 lh dest false).1.pool = (walk e (play e s lh b).1 lh dest false).1.total
+
+/-- witness: pool [1, 2] with 2 spending an output of 1; the block [9 (award), 2] confirms the child 2 alone. After `play`
+conservation still holds (13 + pending fee 2 = 15), after the following `walk` (roll-back and re-submission of 1) the table
+holds 16 + pending fee 2 = 18 against a total of 15. -/
+theorem play_walk_conservation_refuted : ¬ play_walk_conservation_statement := by
+  intro hst
+  let e : Env := { txs := [
+    (1, ⟨1, false, [⟨0, 0, "u0", 5, 0, false⟩], [⟨"u1", 3, 0⟩, ⟨"$", 2, 0⟩], [], []⟩),
+    (2, ⟨2, false, [⟨1, 0, "u1", 3, 0, false⟩], [⟨"u2", 2, 0⟩, ⟨"$", 1, 0⟩], [], []⟩),
+    (9, ⟨9, true, [], [⟨"miner", 10, 0⟩], [], []⟩)] }
+  let s0 : St := { U := [((0, 0), ⟨"u0", 5, 0⟩)], total := 5 }
+  let b : Block := ⟨20, some 0, 1, [9, 2], "miner"⟩
+  have h0 : PoolLive e s0 := PoolLive_of_empty e s0 (by unfold UNodup; decide) rfl (by decide)
+  have h1 := doTx_PoolLive e s0 0 1 h0
+    (fun _ => ⟨by decide, lookup_none_of_noid _ _ (by decide), by decide, by decide, by decide⟩)
+  have h2 := doTx_PoolLive e _ 0 2 h1
+    (fun _ => ⟨by decide, lookup_none_of_noid _ _ (by decide), by decide, by decide, by decide⟩)
+  have := hst e (doTx e (doTx e s0 0 1).1 0 2).1 0 b 20 h2 (by decide) (by decide)
+    (by
+      intro i hi hnp
+      have hi9 : i = 9 := by
+        simp only [b, List.mem_cons, List.not_mem_nil, or_false] at hi
+        rcases hi with rfl | rfl
+        · rfl
+        · exact absurd (by decide) hnp
+      subst hi9
+      exact ⟨lookup_none_of_noid _ _ (by decide), by decide, by decide, by decide⟩)
+  exact absurd this (by decide)
+
 end XV.C02
